@@ -4,20 +4,36 @@ import json, os
 V = os.path.dirname(os.path.dirname(os.path.abspath(__file__)))
 ids = [json.loads(l)["id"] for l in open(os.path.join(V, "properties.jsonl"))]
 
+T = "Coq 8.16 theorems over the hand-written Gallina model, closed by the kernel (no axioms); model tied to /repo on every run by regenerated constants and by differential execution of the extracted model against libsrtp (ASan/UBSan) on generated scripts; independent monitors on the implementation's transcript give the replay. "
 CLAIMED = {
- "C05": ("Theorems over the Gallina model of rdbx.c (any window size 1..32767, any delivery list): at-most-once, invariant "
-         "bitmask<->accepted set, verdict on the next packet; tie = regenerated constants + differential runs of rdbx ops and "
-         "srtp_unprotect histories against the extracted model + set-based monitor on the implementation's own verdicts.",
+ "C05": (T + "Theorems: for every window size and every delivery list no index is accepted twice; bitmap <-> accepted-set invariant; verdict on the next packet (copy / beyond effective window / fresh inside window).",
          "6.C05", "Coq proof by invariant over delivery lists + differential correspondence"),
- "C06": ("Theorems: estimate = true index for every pair of 48-bit indices closer than 2^15 (all ROC), closest-of-three, no ROC-1 at "
-         "stream start; tie = constants + differential runs of srtp_index_guess/estimate and API histories over wraps.",
-         "6.C06", "Coq proof (linear integer arithmetic over the transcribed estimator) + differential correspondence"),
- "C07": ("Theorems over the model of rdb.c: at-most-once for any delivery list, invariant, verdicts incl. forward jumps to 2^31-1, "
-         "sender counter ceiling; tie = constants + differential runs + reference-set monitor.",
+ "C06": (T + "Theorems: estimate = true index for all 48-bit index pairs closer than 2^15 at every ROC; closest of ROC-1/ROC/ROC+1; no ROC-1 at stream start; receiver follows sender.",
+         "6.C06", "Coq proof (integer arithmetic over the transcribed estimator) + differential correspondence"),
+ "C07": (T + "Theorems: SRTCP at-most-once for any delivery list, invariant, verdicts incl. forward jumps to 2^31-1, sender counter ceiling.",
          "6.C07", "Coq proof by invariant over delivery lists + differential correspondence"),
- "C09": ("Theorems over the model of key.c for every budget and every history of updates: exact decrement, soft iff new budget in "
-         "(0,2^16), hard iff exhausted, expiry permanent; tie = constants + differential runs with budgets poked next to thresholds.",
+ "C08": (T + "Theorems: indices under which srtp_protect encrypts are pairwise distinct for any sequence of sequence numbers; SRTCP index strictly increasing, stuck at 2^31-1 with key_expired; SRTP/SRTCP IV formation injective in (SSRC, index); counter block injective in the IV. IV log at the cipher boundary (wrapped cipher types) compared with the model's.",
+         "6.C08", "Coq proof (replay invariant reused for the sender + injectivity of IV encodings) + differential correspondence incl. IV log"),
+ "C09": (T + "Theorems for every budget and every update history: exact decrement, soft iff new budget in (0,2^16), hard iff exhausted, expiry permanent (after fix 3993e2d). API runs with budgets poked next to the thresholds on explicit and wildcard-cloned streams.",
          "6.C09", "Coq proof by induction over update histories + differential correspondence"),
+ "C10": (T + "Theorems: for all worlds (any bytes, lengths, capacity, mode) the four packet functions never access outside [in,in+len) / [out,out+*out_len) (b_oob stays false) for well-formed sessions; every stream the library builds is well-formed; accepted policies fit tmp_tag/tmp_key. Sanitizers on exact-size buffers incl. packets forged by a key holder. PARTIAL: UB other than offsets is visible only to the sanitizers.",
+         "6.C10", "Coq proof (Hoare-style bounds over the buffer monad) + ASan/UBSan differential runs"),
+ "C11": (T + "Theorems: output length = input +/- (tag + MKI (+4)), within capacity; small capacity refused; trailer of any accepted policy <= documented maxima.",
+         "6.C11", "Coq proof over the buffer monad + capacity sweeps"),
+ "C13": (T + "Theorems: everything srtp_unprotect / srtp_unprotect_rtcp do up to and including authentication leaves session, heap and event log untouched; a call returning no_ctx/bad_mki/auth_fail/replay_*/pkt_idx_old/cant_check/buffer_small changes nothing; malformed input changes nothing at all. Twin-session runs with rejected packets interleaved (incl. after set_roc).",
+         "6.C13", "Coq proof (frame property of the pre-authentication phase) + twin-session differential runs"),
+ "C14": (T + "Theorems: dictionary laws of the stream table incl. growth; remove/ROC accessors succeed exactly for present SSRCs; dispatch explicit > wildcard clone > no_ctx; second wildcard refused.",
+         "6.C14", "Coq proof (list-map refinement) + dictionary-monitored API histories"),
+ "C15": (T + "Theorems: an update of an explicit stream that returns any error leaves the whole session and the heap unchanged (after fix b1bd97f); a successful one keeps index and SRTCP window, changes keys, touches no other SSRC; wildcard update refusals before the move phase change nothing.",
+         "6.C15", "Coq proof over the session monad + re-key histories"),
+ "C16": (T + "Theorems: set_roc records r and nothing else; next packet estimated with r; after one processed packet pending ROC cleared, ROC = r, and estimation is the natural one (exact within 2^15, wraps to r+1) (after fix f91f198).",
+         "6.C16", "Coq proof (arithmetic of the imposed-ROC estimator + commit paths) + histories over two wraps"),
+ "C17": (T + "Theorems: ownership balance (live blocks = base + blocks owned by the session) preserved by every API call on return AND on exit for every position of a failing allocation; after srtp_dealloc nothing remains, for any API sequence (after fixes c8c46b3, 278a66d). Fail-the-n-th-allocation sweeps under ASan/LSan with live-block counting. PARTIAL: the real allocator and third-party objects are outside the model.",
+         "6.C17", "Coq proof (Hoare triples on the heap counter for all failure schedules) + fault-injection sweeps"),
+ "C18": (T + "Theorems: AES-ICM state machine = counter-mode keystream for every chunking, terminus exactly at 65535 blocks; SHA-1 buffering/padding = FIPS 180-4 and HMAC = RFC 2104 for every chunking (parametric in the compression function); constant-time compare = equality for both schedules; word-loop shifts = shift of the packed window. aes.c / SHA-1 rounds are COMPARED (C vs Gallina FIPS functions vs hashlib/openssl), not proved.",
+         "6.C18", "Coq proof of the chunking/padding/compare/shift logic + three-way differential runs"),
+ "C19": (T + "Theorems: (regenerated from /repo by a clang-AST translator on every run) no function reachable from a session-API entry point writes a process global outside debug-only code; generic theorem: with an unmodified shared component every interleaving gives each thread its sequential outputs. ThreadSanitizer run of N threads on own sessions vs sequential digests. PARTIAL: memory model / libc / pointer-mediated sharing outside the theorem.",
+         "6.C19", "Coq proof over a call graph regenerated from the source + TSan supporting run"),
 }
 NOTE = ("Trusted: Coq 8.16.1 kernel; tools/gen_constants.py; extraction (ExtrOcamlBasic only) + harness/mdrv.ml; harness/cdrv*.c; "
         "gcc sanitizers. The C code is modelled (hand-written Gallina) and tied by differential correspondence on every run, not verified directly.")
@@ -48,7 +64,7 @@ m = {
               "kind_free_text": "Coq 8.16 theorems over a hand-written Gallina model; model tied to /repo by regenerated constants and by differential execution of the extracted model against libsrtp built from the working tree under ASan/UBSan; property monitors on the implementation transcript produce the replay"}],
  "checks": checks,
  "notes": "See DESIGN.md. known_findings.json lists recorded findings and fixed defects.",
- "not_applicable": [{"property_id": i, "reason": "check not built yet (work in progress; DESIGN.md section 11 gives the order)"} for i in ids if i not in CLAIMED],
+ "not_applicable": [{"property_id": i, "reason": "checks run (correspondence + monitors, see lib/props) but the Coq theorems for this property are still being proved; not claimed until they compile"} for i in ids if i not in CLAIMED],
 }
 json.dump(m, open(os.path.join(V, "MANIFEST.json"), "w"), indent=1)
 print("claimed:", sorted(CLAIMED))
